@@ -701,7 +701,7 @@ func c19Scenarios(tier string) []*world.Scenario {
 	}
 	// many medium replies to a slow reader: the outbound ring grows step by step while wrapped; fragments to a slow node
 	// beyond the 64 KiB static part
-	out = append(out, SlowClientManyReplies("C19", 14, 1000, b), SlowClientManyReplies("C19", 8, 2500, b))
+	out = append(out, SlowClientManyReplies("C19", 14, 1000, b), SlowClientManyReplies("C19", 8, 2500, b), SlowClientOverflow("C19", 40000, b))
 	{
 		sc := SlowBackendOverflow("C19", 5, 40000, b)
 		inner := sc.Check
